@@ -125,7 +125,8 @@ def applyOptsText (t : List α) (op : Nat → List α → R (List (List α))) (o
   let ls := (Editor.root t o).linesSep o.lineSep
   let outs ← (List.range ls.length).mapM fun i => op i (ls.getD i [])
   let applied := outs.flatten
-  let applied := if !o.noTrailing ∧ o.lineSep.isSuffixOf t then applied ++ [[]] else applied
+  let applied := if !o.noTrailing ∧ ls.length < (splitOn t o.lineSep).length then applied ++ [[]]
+    else applied
   pure (joinWith o.lineSep applied)
 
 theorem linesSep_withOpts (ed : Editor α) (o : Options α) (sep : List α) :
